@@ -65,6 +65,17 @@ Proof. exact choose_ts_explicit. Qed.
 
 Theorem C18_generated : forall gen, choose_ts None gen = gen /\ gen_consulted None = true.
 Proof. exact choose_ts_generated. Qed.
+(* NOTE: C18_explicit / C18_generated unfold a two-line definition; the sentence "an explicit statement
+   timestamp is sent unchanged in preference to a generated one" rests on the end-to-end tie (E cases),
+   which compares the frames of the real driver with choose_ts / frames_ts. *)
+
+(* every frame of a request - the first and the ones re-sent after an UNPREPARED answer - carries
+   the same timestamp choose_ts picked; with a statement timestamp that is the statement's *)
+Theorem C18_frames_ts : forall stmt gen k,
+  List.length (frames_ts stmt gen k) = S k /\
+  (forall f, In f (frames_ts stmt gen k) -> f = choose_ts stmt gen) /\
+  (forall t, stmt = Some t -> frames_ts stmt gen k = repeat (Some t) (S k)).
+Proof. exact frames_ts_spec. Qed.
 
 (* the predicate evaluated by the correspondence check on the real generator's outputs IS the
    property (distinct over all threads, increasing per thread), and every run of the model
@@ -128,6 +139,25 @@ Example C18_ex_accept :
   accept_sample 100 150 155 160 = true /\ accept_sample 100 150 101 160 = false.
 Proof. repeat split; vm_compute; reflexivity. Qed.
 
+(* anchors of the definitions the driver evaluates (accepting and rejecting inputs) *)
+Example C18_ex_choose :
+  choose_ts (Some 5) (Some 9) = Some 5 /\ choose_ts (Some (-7)) None = Some (-7) /\
+  choose_ts None (Some 9) = Some 9 /\ choose_ts None None = None /\
+  gen_consulted (Some 5) = false /\ gen_consulted None = true /\
+  frames_ts (Some 5) (Some 9) 1 = [Some 5; Some 5] /\ frames_ts None (Some 9) 2 = [Some 9; Some 9; Some 9] /\
+  frames_ts None None 0 = [None].
+Proof. repeat split; vm_compute; reflexivity. Qed.
+Example C18_ex_predicates :
+  final_ok [[1; 5]; [2]] 6 = true /\ final_ok [[1; 5]; [2]] 5 = false /\
+  phase_ok [[1; 3]; [2]] [[4]; [5; 6]] = true /\ phase_ok [[1; 8]; [2]] [[4]; [9]] = false /\
+  all_distinct [[3; 1]; [2]] = true /\ all_distinct [[3; 1]; [1]] = false /\
+  strictly_incr [1; 2; 2] = false /\ strictly_incr [-3; 0; 7] = true /\
+  accept_samples 0 [(10, 12, 13); (12, 13, 12); (5, 14, 20)] = true /\
+  accept_samples 0 [(10, 12, 13); (14, 13, 15)] = false /\
+  sched_ok 10 [Clock 0 (Some 11)] = false /\ sched_ok 10 [Clock 0 (Some 10); Clock 1 None; Load 0] = true /\
+  wrap64 (2 ^ 63) = i64_min /\ wrap64 (-1) = -1.
+Proof. repeat split; vm_compute; reflexivity. Qed.
+
 Print Assumptions C18_inv.
 Print Assumptions C18_cas_step.
 Print Assumptions C18_distinct.
@@ -136,6 +166,7 @@ Print Assumptions C18_call_order.
 Print Assumptions C18_compute_next_gt.
 Print Assumptions C18_explicit.
 Print Assumptions C18_generated.
+Print Assumptions C18_frames_ts.
 Print Assumptions C18_prop_ok_iff.
 Print Assumptions C18_model_accepted.
 Print Assumptions C18_accept_sample_sound.
